@@ -315,7 +315,9 @@ def model_b(ctx, module, cfg, recs, *, env=None, timeout=1200, chunk=None, name=
             raise Infra("model B %s did not consume its chunk: summary=%s records=%d viol=%d\n%s" % (
                 module, summ, cnt, len(got), "\n".join(r["tail"][-30:])))
         return got, r
-    with ThreadPoolExecutor(max_workers=min(NCPU, len(parts))) as ex:
+    # memory-aware: at most ~24 GB of TLC heaps at once
+    par = max(1, min(NCPU, len(parts), int(24 // max(1, int(heap.rstrip('g') or 3)))))
+    with ThreadPoolExecutor(max_workers=par) as ex:
         for got, r in ex.map(one, parts):
             viols += got
             ctx.transitions += r["generated"]
